@@ -16,6 +16,8 @@ CLAIM = (
     "the reader's check and the dispatch keys use the same function; (4) every PrimitiveType has a parse function and the "
     "if/elif chains over type annotations and our types are exhaustive (EXH1/EXH2); (5) no error value is dropped in the two "
     "generators (ERR1-3)."
+    " SKIPS: the loops of the functions in scope have no more `continue`, `break` or in-loop `return` statements than the reference "
+    "read on the unchanged tree (baselines/skips.json): a new skip means elements that were handled are no longer handled."
 )
 NOTE = (
     "Not decided: round-trip equality and `only the de-serialization error is raised` - both are properties of the execution of the "
@@ -101,3 +103,11 @@ def run(ctx) -> None:
             err.check_err12(ctx, f, "ERR1", "ERR1v", "ERR2")
             err.check_err3(ctx, f, "ERR3")
     exh.check_enum_keyed_dicts(ctx, "EXH2", modules=lambda m: m.name in (f"{PKG}.{JS}", f"{PKG}.{XS}"))
+
+    ctx.rule("SKIPS", "the loops of the functions in scope have no more continue/break/return-in-loop statements than the reference read on the unchanged tree", floor=5)
+    from ..rules import skips as _skips
+    _base = _skips.load_baseline()
+    for _m in ctx.p.modules.values():
+        if _m.name in ("aas_core_codegen.python.lib._generate_jsonization", "aas_core_codegen.python.lib._generate_xmlization"):
+            for _f in _m.functions.values():
+                _skips.check_skips(ctx, _f, "SKIPS", _base)
